@@ -304,6 +304,13 @@ func vfCacheHistory(c *kit.Case, r *kit.Rand, sample bool) {
 		keys[i] = fmt.Sprintf("k%d", i)
 	}
 	maxTicks := 2500
+	// burst mode: operations are issued back to back, without waiting for the wheel and for detached
+	// goroutines to settle after each one (applications do not wait either); the sequential model is
+	// the same, the comparison happens at the next tick
+	burst := r.Chance(0.4)
+	if burst {
+		c.Obs("wb_cache_burst_histories", 1)
+	}
 	L := r.Range(10, 120)
 	wSet, wGet, wDel, wTake, wTick := r.Range(10, 40), r.Range(5, 30), r.Range(1, 10), r.Range(3, 20), r.Range(15, 50)
 	for i := 0; i < L && !cr.bad; i++ {
@@ -410,7 +417,7 @@ func vfCacheHistory(c *kit.Case, r *kit.Rand, sample bool) {
 			}
 			continue
 		}
-		if !cr.bad {
+		if !cr.bad && !burst {
 			cr.settle(false)
 		}
 	}
